@@ -20,7 +20,7 @@ def cov_c07(st, tier):
 
 
 ENGINES = [
-    {"name": "E-A netsim", "path": "engine/", "serves_properties": [], "kind_free_text": "real client + real server main loops as coroutines in one process under a virtual clock/network/tun; fork-at-choice-point DFS over per-datagram fates, deviation-bounded"},
+    {"name": "E-A netsim", "path": "engine/", "serves_properties": ["C01", "C02", "C10", "C14", "C15"], "kind_free_text": "real client + real server main loops as coroutines in one process under a virtual clock/network/tun; fork-at-choice-point DFS over per-datagram fates, deviation-bounded"},
     {"name": "E-B adversary", "path": "engine/", "serves_properties": [], "kind_free_text": "depth-bounded explicit-state search over message alphabets against the real server/client loop, exact-state hashing of the whole image"},
     {"name": "E-C enumerators", "path": "props/", "serves_properties": ["C07", "C08", "C09", "C17", "C18", "C19"], "kind_free_text": "exhaustive enumeration of finite input families through the real pure functions, compared with independent references"},
 ]
@@ -95,6 +95,40 @@ def cov_c08(st, tier):
     }
 
 
+EA_ASSUME = COMMON_ASSUME + [
+    "virtual network: per-datagram fates {on time, drop, duplicate, duplicate with fresh DNS id, late by 30 ms / 1.2 s / 5 s}; one-way latency from the cell's latency class",
+    "code between two select() calls runs atomically and takes no virtual time (single-threaded programs)",
+    "handshake of each cell runs on the clean path before fates are enabled (unless the check says otherwise)"]
+
+
+def cov_ea(prop, rule, extra_keys):
+    def f(st, tier):
+        c = {
+            "states": st["execs"] + st["states"], "transitions": st["steps"], "traces_validated_against_impl": st["execs"],
+            "evaluations": st["execs"], "distinct_nontrivial": st["distinct_outcomes"],
+            "rule": "state = end state of one complete execution of the real client+server under one fate assignment (plus, where pruning is on, distinct whole-image states at choice points); "
+                    "transition = one scheduler step (a process run between two select() calls, a delivery, a timer); every execution is an implementation run. " + rule,
+            "cells_booted": st["cells"], "cells_where_handshake_failed": st["handshake_failed_cells"], "choice_points": st["choicepoints"], "forks": st["forks"],
+            "packets_delivered_up": st["delivered_up"], "packets_delivered_down": st["delivered_down"], "repeated_deliveries": st["repeats"], "datagrams_seen": st["datagrams"],
+            "sanitizer_notes_for_C05_C06": st.get("sanitizer_notes", 0),
+        }
+        for k in extra_keys:
+            c[k] = st.get(k)
+        return c
+    return f
+
+
+def ea_entry(prop, level_text, level_note, rule, extra_keys, quick_s=240, thorough_s=1500, flavor="ubsan"):
+    return {
+        "harness": "ea.c", "flavor": flavor, "engine": "E-A netsim", "args": ["--prop", prop],
+        "tiers": {"quick": {"budget_s": quick_s}, "thorough": {"budget_s": thorough_s}},
+        "coverage": cov_ea(prop, rule, extra_keys),
+        "level_text": level_text, "level_note": level_note,
+        "technique": "stateless model checking of the real client+server in a virtual world: exhaustive per-datagram fate enumeration, deviation-bounded (CHESS-style), fork-at-choice-point",
+        "assumptions": EA_ASSUME,
+    }
+
+
 PROPS = {
     "C07": {
         "harness": "C07.c", "flavor": "asan", "images": (("s", "server"),), "engine": "E-C enumerators",
@@ -150,4 +184,24 @@ PROPS = {
         "technique": "exhaustive enumeration of a configuration x input grid through the real builder and the real extraction path",
         "assumptions": COMMON_ASSUME,
     },
+    "C01": ea_entry("C01",
+        "Every cell of the configuration grid (7 record types x downstream codec x 4 relay classes selecting the upstream codec x fragment size x -M x lazy/immediate) runs the real handshake and a mixed workload on the clean path (0 deviations); a pairwise-covering subset of cells runs under every single fate deviation at every datagram (1 deviation; thorough: all cells at 1, subset at 2). Every tun write on either side is compared byte-for-byte with the packets read from the peers' tuns.",
+        "Trusted: the virtual world (engine/vw.c, netsim.h) and the comparison. Payloads are fixed unique pseudo-random/compressible packets, not all contents; zlib's Adler-32 is what rejects mis-spliced fragments, so a colliding splice is outside what this decides. Fault histories with more deviations than the bound are not covered.",
+        "non-trivial = at least one packet crossed the tunnel; distinct = distinct (set and order of delivered tags per side, repeats, client alive) outcome classes", []),
+    "C02": ea_entry("C02",
+        "Clean path: every cell of the grid (excluding forced fragment sizes the record type cannot carry) x latency classes runs four packets per direction, offered back-to-back and spaced; the sequence of tun writes on each side must equal the sequence of packets the peer accepted (exactly once, in order), for every packet that fits in 16 fragments.",
+        "Recovery after a fault window is checked as bounded response on finite runs (see DESIGN.md C02); 'accepted' is evaluated from read-only accessors at the moment the program reads its tun.",
+        "distinct = distinct delivery outcome classes", []),
+    "C10": ea_entry("C10",
+        "Every datagram emitted by the real client and the real server in every execution of the C01 exploration (clean path on all cells, every single fate deviation on the pairwise subset) is parsed by an independent strict RFC 1035 parser; every server answer must pair with a received, not yet answered query with the same requester, id, question name (byte-exact) and type.",
+        "Trusted: ref/refdns.c. NS / A(ns,www) auxiliary answers are enumerated separately (see the C10 aux check in DESIGN.md); queries whose labels contain '.' or NUL are outside the property.",
+        "distinct = distinct outcome classes of the executions whose datagrams were parsed", ["strictly_parsed", "answers"]),
+    "C14": ea_entry("C14",
+        "In every execution of the exploration a multiset of received-and-unanswered queries is kept per (requester, id, question, type); an answer that matches no pending entry is a violation, and at every select() of the server at most two distinct unanswered tunnel queries per session may exist.",
+        "Queries with DNS id 0 are ignored by design and excluded. The pending multiset is observed on the wire, not read from the server's variables.",
+        "distinct = distinct outcome classes; max_pending is the largest number of distinct held queries seen at a server select()", ["answers", "max_pending"]),
+    "C15": ea_entry("C15",
+        "Every server answer that carries tunnel data, in every execution, is decoded by reference decoders for the five presentations (independent of the client) and checked against the fragment size the session negotiated on the wire ('n' request acknowledged by the server; 100 before): payload length, consecutive fragment numbers per downstream packet, identical resends, last flag only on the fragment that completes a compressed packet, sizes below 2 rejected.",
+        "F is taken from the wire, not from the server's variable. Forced fragment sizes in the grid: auto, 50, 200, 1200; other values of F (2,3,5,4093..4096,65535) are covered by the dedicated boundary cells of the thorough tier.",
+        "distinct = distinct outcome classes", ["data_fragments"]),
 }
